@@ -34,9 +34,10 @@ def bounds_text(tier):
 def tasks(tier, seed):
     out = []
 
-    def add(n, K, a, comp, gap, budget, via, extra_init=None):
-        d = {"key": f"n{n}/{comp}/{gap}/{budget}/{via}/K={','.join(map(str, K))}/a={a}" + (f"/init={extra_init}" if extra_init else ""),
-             "n": n, "K": K, "a": a, "computer": comp, "gap": gap, "budget": budget, "via": via, "init": extra_init or []}
+    def add(n, K, a, comp, gap, budget, via, extra_init=None, undo=None):
+        d = {"key": f"n{n}/{comp}/{gap}/{budget}/{via}/K={','.join(map(str, K))}/a={a}" + (f"/init={extra_init}" if extra_init else "")
+             + (f"/undo={undo}" if undo is not None else ""),
+             "n": n, "K": K, "a": a, "computer": comp, "gap": gap, "budget": budget, "via": via, "init": extra_init or [], "undo": undo}
         out.append(d)
     rnd = random.Random(f"c09/{seed}")
     fam3, _ = F.family(3, tier, seed)
@@ -50,7 +51,19 @@ def tasks(tier, seed):
                     budget = rnd.choice(["none", "sym"])
                     via = "model" if rnd.random() < 0.3 else "direct"
                     add(3, K, a, comp, gap, budget, via)
+    # histories ending in an out-of-order unstep: step(x), step(a), unstep(x) — the unstep's own return values are checked
+    for comp in COMPUTERS:
+        for K in fam3:
+            unk = [S for S in F.extras(3) if S not in K]
+            for a in unk:
+                for x in unk:
+                    if x != a:
+                        add(3, K, a, comp, rnd.choice(GAPS), rnd.choice(["none", "sym"]), "direct", undo=x)
     fam4, _ = F.family(4, tier, seed)
+    for K in F.sample([k for k in fam4 if len(k) < 9], 128 if tier == "thorough" else 16, seed, "c09undo4"):
+        unk = [S for S in F.extras(4) if S not in K]
+        a, x = rnd.sample(unk, 2)
+        add(4, K, a, rnd.choice(["superadditive", "superadditive_cached"]), rnd.choice(["exploitability", "l1_norm"]), "none", "direct", undo=x)
     fam4 = [k for k in fam4 if len(k) < 10]
     for K in (fam4 if tier == "thorough" else F.sample(fam4, 48, seed, "c09n4")):
         a = rnd.choice([S for S in F.extras(4) if S not in K])
@@ -125,7 +138,12 @@ def scenario(pk, params, inp):
         if S not in known:
             env.incomplete_game.set_lower_bound(inp.real(f"staleL{S}"), C(S))
             env.incomplete_game.set_upper_bound(inp.real(f"staleU{S}"), C(S))
-    obs, reward, done, trunc, info = env.step(ex.index(params["a"]))
+    if params.get("undo") is not None:
+        env.step(ex.index(params["undo"]))
+        env.step(ex.index(params["a"]))
+        obs, reward, done, trunc, info = env.unstep(ex.index(params["undo"]))
+    else:
+        obs, reward, done, trunc, info = env.step(ex.index(params["a"]))
     known2 = known | {params["a"]}
     g = env.incomplete_game
     out = {"explorable": ex, "draws_after_init": draws_after_init, "obs": list(obs), "reward": reward, "done": bool(done),
@@ -178,7 +196,7 @@ def claims(params, inp, out, lg):
     ex_ref = [S for S in range(2 ** n) if S not in initial]
     cl = [("explorable-are-initially-unknown", out["explorable"] == ex_ref),
           ("hidden-game-is-second-draw", k == 2),
-          ("info-reports-revealed-id", out["chosen"] == params["a"]),
+          ("info-reports-revealed-id", out["chosen"] == (params["a"] if params.get("undo") is None else params["undo"])),
           ("steps-counted", out["steps"] == len(params["K"]) + 1),
           ("never-truncated", out["truncated"] is False)]
     for S in range(2 ** n):
